@@ -925,3 +925,21 @@ V("C10", "neighbors-pyx-query-haystack-swapped", NBPYX, "            &xyz[i,0,0]
 V("C10", "neighbors-pyx-periodic-ignored", NBPYX, "    cdef int is_periodic = periodic and (traj.unitcell_vectors is not None)", "    cdef int is_periodic = (traj.unitcell_vectors is not None)", "C10-R4", "compute_neighbors")
 V("C10", "neighborlist-pyx-box-of-frame-zero", NLPYX, "        unitcell_vectors = ensure_type(traj.unitcell_vectors[frame],", "        unitcell_vectors = ensure_type(traj.unitcell_vectors[0],", "C10-R4")
 V("C10", "twin-neighbors-postincrement", NBC, "        for (qit = query_indices.begin(); qit != query_indices.end(); ++qit) {", "        for (qit = query_indices.begin(); qit != query_indices.end(); qit++) {", None)
+
+# ---------------------------------------------------------------- C09
+V("C09", "rg-not-centred", "mdtraj/geometry/rg.py", "    centered = (xyz.transpose((1, 0, 2)) - mu).transpose((1, 0, 2))", "    centered = xyz", "C09-R2", "_compute_rg_xyz")
+V("C09", "gyration-tensor-not-centred", "mdtraj/geometry/shape.py", "    xyz = traj.xyz - center_of_geom\n    return np.einsum", "    xyz = traj.xyz\n    return np.einsum", "C09-R2", "compute_gyration_tensor")
+V("C09", "reference-distance-of-positions", DPY, "    delta = np.diff(xyz[:, pairs], axis=2)[:, :, 0]\n    return (delta**2.0).sum(-1) ** 0.5", "    delta = xyz[:, pairs[:, 1]]\n    return (delta**2.0).sum(-1) ** 0.5", "C09-R2", "_distance")
+V("C09", "reference-wrap-on-position", DPY, "            r12 = xyz[i, b, :] - xyz[i, a, :]\n            r12 -= bv3 * round(r12[2] / bv3[2])\n            r12 -= bv2 * round(r12[1] / bv2[1])\n            r12 -= bv1 * round(r12[0] / bv1[0])\n            dist = np.linalg.norm(r12)",
+  "            pb = xyz[i, b, :] - bv3 * round(xyz[i, b, 2] / bv3[2])\n            r12 = pb - xyz[i, a, :]\n            r12 -= bv2 * round(r12[1] / bv2[1])\n            r12 -= bv1 * round(r12[0] / bv1[0])\n            dist = np.linalg.norm(r12)", "C09-R2", "_distance_mic")
+V("C09", "kernel-wrap-on-position", DKH, "            fvec4 r12 = pos2-pos1;\n#ifdef COMPILE_WITH_PERIODIC_BOUNDARY_CONDITIONS\n            r12 -= round(r12*inv_box_size)*box_size;",
+  "#ifdef COMPILE_WITH_PERIODIC_BOUNDARY_CONDITIONS\n            pos2 -= round(pos2*inv_box_size)*box_size;\n#endif\n            fvec4 r12 = pos2-pos1;\n#ifdef COMPILE_WITH_PERIODIC_BOUNDARY_CONDITIONS\n            r12 -= round(r12*inv_box_size)*box_size;", "C09-R1", count=2)
+V("C09", "drid-distance-from-origin", "mdtraj/geometry/src/dridkernels.cpp", "        fvec4 r = x-y;", "        fvec4 r = y;", "C09-R1", "drid_moments")
+V("C09", "bend-angle-from-positions", DCP, "            fvec4 v_prime = this_ca-next_ca;", "            fvec4 v_prime = next_ca;", "C09-R1", "calculate_bends")
+V("C09", "sasa-blocker-distance-from-origin", SA, "            fvec4 r_ij = r_i-r_j;", "            fvec4 r_ij = r_j;", "C09-R1", "asa_frame")
+V("C09", "sasa-point-test-absolute", SA, "                fvec4 r_jk = r_j-fvec4(frame[3*index], frame[3*index+1], frame[3*index+2], 0);", "                fvec4 r_jk = r_j;", "C09-R1", "asa_frame")
+V("C09", "neighbors-absolute-cutoff-test", NBC, "            fvec4 delta = pos1-pos2;\n            if (triclinic) {", "            fvec4 delta = pos1-pos2;\n            if (pos1[0] > cutoff) continue;\n            if (triclinic) {", "C09-R1", "_compute_neighbors")
+V("C09", "ks-energy-uses-position", GEOC, "    fvec4 r_ho = r_h-r_o;", "    fvec4 r_ho = r_h;", "C09-R1", "ks_donor_acceptor")
+V("C09", "closest-contact-absolute", GEOC, "            fvec4 delta = pos1-pos2;", "            fvec4 delta = pos1;", "C09-R1", "find_closest_contact")
+V("C09", "twin-rg-centre-by-broadcast", "mdtraj/geometry/rg.py", "    centered = (xyz.transpose((1, 0, 2)) - mu).transpose((1, 0, 2))", "    centered = xyz - mu[:, None, :]", None)
+V("C09", "twin-drid-difference-reversed", "mdtraj/geometry/src/dridkernels.cpp", "        fvec4 r = x-y;", "        fvec4 r = y-x;", None)
